@@ -130,6 +130,7 @@ type c13Scenario struct {
 	Pool   string
 	TopN   int // histo -n (0: show everything)
 	// clean scenarios: rows and columns have their own family, sort mode and modifier
+	Zone             string // the process's local time zone during the scenario ("" = the host's)
 	RedExpr          string // reduce: --sort expression ("" = by group key)
 	Clean            bool
 	RowFam, ColFam   string
@@ -183,6 +184,11 @@ func c13Gen(t *simrt.Tape, free bool) *c13Scenario {
 			return src[:n]
 		}
 		sc.Keys = pickN(sc.RowFam, t.WRange(2, 8))
+		if sc.RowFam == "naive" {
+			// wall-clock readings around daylight-saving transitions: run in a zone that has them
+			sc.Zone = []string{"America/New_York", "Europe/Berlin", "Australia/Lord_Howe"}[t.W(3)]
+			sc.Keys = pickN(sc.RowFam, t.WRange(5, 9))
+		}
 		// distinct counts (a permutation of 1..n): `value` has no ties to break
 		for i := range sc.Keys {
 			sc.Counts = append(sc.Counts, i+1)
@@ -463,6 +469,9 @@ func init() {
 		t := rc.Tape
 		sc := c13Gen(t, rc.Mode == simrt.ModeFree)
 		zone := c13Zones[t.W(len(c13Zones))]
+		if sc.Zone != "" {
+			zone = sc.Zone
+		}
 		if zone != "" {
 			if loc, err := time.LoadLocation(zone); err == nil {
 				old := time.Local
@@ -496,6 +505,13 @@ func init() {
 		for _, k := range all {
 			if layout(k) != layout(all[0]) || strings.HasPrefix(layout(k), "other") {
 				keysKind = "mixed"
+			}
+		}
+		if sc.Clean {
+			// one family, one layout per axis by construction: never the mixed-layout situation of the known finding
+			keysKind = "clean:" + sc.RowFam
+			if sc.ColFam != "" {
+				keysKind += "/" + sc.ColFam
 			}
 		}
 		desc := map[string]any{"cmd": sc.Cmd, "sort": sortArg, "pool": sc.Pool, "keys": sc.Keys, "counts": sc.Counts, "cols": sc.Cols, "local_zone": zone}
